@@ -164,9 +164,17 @@ def check_truncate(prog, rep):
                               guard.lineno)
         if name in ('svd_min', 'trunc_cut', 'degeneracy_tol'):
             rep.instance('TRUNC-mask-shape', {'constraint': name})
-            src = ' '.join(unparse(b) for b in blk)
+            # on the normal form (option variables and masks kept): named intermediate values
+            # such as `log_svd_min = np.log(svd_min)` are expanded
+            nf = inline_temps(f, keep=tuple(optvar) + (acc, fresh))
+            g2 = [parent(s2) for s2 in stmts_of(nf) if isinstance(s2, ast.Assign) and isinstance(
+                s2.value, ast.Call) and call_name(s2.value) == '_combine_constraints' and
+                len(s2.value.args) == 3 and isinstance(s2.value.args[2], ast.Constant) and
+                s2.value.args[2].value == name]
+            guard_n = g2[0] if g2 and isinstance(g2[0], ast.If) else guard
+            src = ' '.join(unparse(b) for b in guard_n.body)
             ok = False
-            for n in ast.walk(guard):
+            for n in ast.walk(guard_n):
                 if isinstance(n, ast.Compare) and var in names_in(n) and isinstance(
                         n.ops[0], (ast.Gt, ast.GtE)) and var in names_in(n.comparators[0]):
                     ok = True
